@@ -3,6 +3,7 @@ from .. import facts, q
 from ..engine import Engine, Inconclusive, C, fmt, subterms, lin
 from ..common import site
 from .ops import strip_casts
+from . import ops as ops_
 from .c09 import root_of
 
 THIS_OBJ = ("deref", ("this",))
@@ -65,6 +66,18 @@ def run(rep, tier):
     rep.rule("R-C03-example", "every context-free (example-based) pointer translation inside the wrappers and struct specialisations is given the address of the sandbox-memory object involved: a pointer decoded relative "
              "to an application-side address (a local copy, the destination object) is a non-null tainted pointer outside the sandbox (shared analysis with C04's R-C04-example)")
     from . import c04 as _c04
+    rep.rule("R-C03-index", "the tainted_volatile lvalue that pointer operator[] (and the pointer that operator+ / operator-) hands out designates exactly the address that was checked to lie in the same sandbox as the "
+             "non-null base (shared analysis with C05's R-C05-check / R-C05-stride)")
+    from ..report import RuleView as _RV
+    for db in dbs:
+        for f in db.functions:
+            if f["dep"] or "body" not in f or not f["n"].startswith(ops_.BASE) or (ops_.class_T(f) or {}).get("k") != "ptr":
+                continue
+            if (f.get("oo") in ("+", "-") and len(f["params"]) == 1) or (f.get("oo") == "[]" and f.get("constm")):
+                try:
+                    ops_.check_pointer_arith(_RV(rep, {"R-C05-check": "R-C03-index", "R-C05-stride": "R-C03-index"}), db, f, "%s | %s" % (db.label, f["full"][:150]), db.label)
+                except Inconclusive as ex:
+                    rep.inconclusive("R-C03-index", site(f), str(ex), "%s | %s" % (db.label, f["full"][:150]))
     rep.rule("R-C03-array", "a whole array of pointers is converted element by element with every destination element written (null to null, everything else through the backend translation): an element that is "
              "skipped keeps whatever the destination held - an uninitialised tainted pointer (shared analysis with C04's R-C04-route)")
     from ..report import RuleView
